@@ -167,7 +167,47 @@ RULES = [
 ]
 
 
-def props_of(key):
+# Layers: a property about a higher layer also rests on everything the code of that layer calls (a pairing is only
+# right if the tower, the group law and the limb arithmetic below it are).  RULES above names the functions a property
+# is *about*; LAYERS/PROP_LAYERS close that under "is computed with".
+_U256_CORE = (r'.*::(add|sub|neg|mul|mul_without_cond_subtract|square|invert|div2|mul2|is_zero|is_one|is_even|is_odd|one|zero|'
+              r'subtract_modulus_with_carry|add_carry|cmp|partial_cmp|index|index_mut|as_ref|as_mut|from)(#\d+)?')
+_FP_CORE = (r'.*::(add_inplace|sub_inplace|mul_inplace|neg_inplace|double|triple|squared|inverse|is_zero|zero|one|is_one|div2|'
+            r'sum_of_products|modulus|new|raw|index)')
+LAYERS = {
+    'FQ': [(r'arith\.rs', r'.*'), (r'u256\.rs', _U256_CORE), (r'fields/fp\.rs', _FP_CORE), (r'fields/utils\.rs', r'.*')],
+    'BITS': [(r'u256\.rs', r'.*(bits|BitIterator|next|get_bit).*'), (r'fields/fp\.rs', r'.*From < \$ name > for U256::from')],
+    'POW': [(r'fields\.rs', r'.*::pow$')],
+    'CODEC': [(r'u256\.rs', r'.*::(from_slice|to_big_endian)'), (r'fields/fp\.rs', r'.*::(from_slice|to_slice|new_mul_factor|from)(#\d+)?')],
+    'FQSQRT': [(r'fields/fp\.rs', r'.*::sqrt$')],
+    'FQ2': [(r'fields/fq2\.rs', r'(?!.*::(sqrt|from_slice|to_slice|to_u512|random)$).*')],
+    'FQ2SQRT': [(r'fields/fq2\.rs', r'.*::sqrt$')],
+    'FQ2CODEC': [(r'fields/fq2\.rs', r'.*::(from_slice|to_slice)$')],
+    'TOWER': [(r'fields/fq(4|12)\.rs', r'.*')],
+    'GROUPS': [(r'groups\.rs', r'.*')],
+    'PAIR': [(r'pairings\.rs', r'.*')],
+    'LIBGROUP': [(r'lib\.rs', r'impl G[12]::(?!from_|to_).*|impl Group for G[12].*|impl (Add|Sub|Neg|Mul) .*G[12].*|impl .* for (G[12]|AffineG[12])::.*')],
+    'LIBPAIR': [(r'lib\.rs', r'impl From < G2 > for G2Prepared.*|impl G2Prepared.*|::pairing$|::fast_pairing$|impl Group for G[12]::normalize')],
+    'LIBCODEC': [(r'lib\.rs', r'impl G[12]\b.*::(from_|to_).*|impl AffineG[12]\b.*|impl From < AffineG[12] >.*')],
+    'ALL': [(r'.*', r'.*')],
+}
+PROP_LAYERS = {
+    'C01': 'PAIR LIBPAIR TOWER FQ2 GROUPS LIBGROUP FQ BITS', 'C02': 'PAIR LIBPAIR TOWER FQ2 GROUPS FQ CODEC',
+    'C03': 'PAIR LIBPAIR TOWER FQ2 GROUPS FQ', 'C04': 'GROUPS LIBGROUP FQ2 FQ', 'C05': 'GROUPS LIBGROUP FQ2 FQ BITS',
+    'C07': 'FQ2 FQ2SQRT FQ2CODEC FQSQRT POW',
+    'C08': 'LIBCODEC GROUPS FQ2 FQ2SQRT FQ2CODEC FQSQRT POW BITS CODEC FQ', 'C09': 'LIBCODEC GROUPS FQ2 FQ2SQRT FQ2CODEC FQSQRT POW BITS CODEC FQ',
+    'C10': 'LIBCODEC GROUPS FQ2 FQ2SQRT FQ2CODEC FQSQRT POW BITS CODEC FQ', 'C11': 'TOWER FQ2 FQ BITS CODEC',
+    'C12': 'FQ2 FQ2CODEC FQ CODEC', 'C14': 'FQSQRT FQ2SQRT FQ2 FQ POW BITS', 'C15': 'GROUPS LIBGROUP FQ2 FQ',
+    'C16': 'PAIR LIBPAIR TOWER FQ2 FQ2SQRT FQ2CODEC GROUPS LIBGROUP LIBCODEC FQ FQSQRT POW BITS CODEC',
+    'C17': 'TOWER PAIR FQ2 FQ', 'C18': 'ALL',
+}
+
+
+def _in_layer(layer, rel, rest):
+    return any(re.fullmatch(fre, rel) and re.fullmatch(cre, rest) for fre, cre in LAYERS[layer])
+
+
+def props_of(key, layered=True):
     rel, _, rest = key.partition('::')
     ps = set()
     if re.search(r'impl .*fmt :: (Debug|Display) for ', rest):
@@ -175,6 +215,10 @@ def props_of(key):
     for fre, cre, pr in RULES:
         if re.fullmatch(fre, rel) and re.fullmatch(cre, rest):
             ps |= set(pr.split())
+    if layered:
+        for p, ls in PROP_LAYERS.items():
+            if p not in ps and any(_in_layer(l, rel, rest) for l in ls.split()):
+                ps.add(p)
     return ps
 
 
